@@ -322,8 +322,11 @@ def replay_locality(model, seed, inst):
 
     torch.manual_seed(seed)
     qname, axis, rank = inst["qtype"], inst["axis"], inst["rank"]
-    for trial in range(20):
+    for trial in range(24):
         shape = [4, 8, 2][:rank] if axis == 0 else [2, 8, 4][:rank]
+        if trial % 4 == 3 and rank >= 2 and not inst.get("grouped"):
+            # degenerate shapes: every dimension other than the quantization axis has length 1 (a Linear with one input feature)
+            shape = ([4] + [1] * (rank - 1)) if axis == 0 else ([1] * (rank - 1) + [4])
         a = torch.randn(shape)
         b = torch.randn(shape) * 7
         k = axis % rank
